@@ -69,3 +69,5 @@ func init() {
 }
 
 func init() { prop("C19", "C19-R2", "C19-R3") }
+
+func init() { prop("C14", "C14-R1") }
